@@ -25,7 +25,7 @@ def mirror(tok):
     return tok[:-1][::-1] + "K"
 
 
-def protein_db(rng, n_prot=30, shared_frac=0.15, subset_frac=0.15, anagrams=4, prefix="decoy_", equal_frac=0.0):
+def protein_db(rng, n_prot=30, shared_frac=0.15, subset_frac=0.15, anagrams=4, prefix="decoy_", equal_frac=0.0, naming="uniprot"):
     """Returns dict: targets {name: [tokens]}, decoys {name: [tokens]}, fasta entries."""
     used = set()
 
@@ -37,7 +37,18 @@ def protein_db(rng, n_prot=30, shared_frac=0.15, subset_frac=0.15, anagrams=4, p
                 used.add(mirror(t))
                 return t
 
-    names = [f"sp|T{i:03d}|PROT{i}" for i in range(n_prot)]
+    if naming == "gene":
+        # short gene-like names; many start with letters that also occur in the decoy prefix
+        lead = list("cdeoyCDEOY_") + list("abXZ")
+        names = []
+        seen = set()
+        while len(names) < n_prot:
+            nm = str(rng.choice(lead)) + str(rng.choice(lead)) + str(rng.choice(list("CDEY12"))) + str(int(rng.integers(1, 9)))
+            if nm not in seen and not nm.startswith(prefix):
+                seen.add(nm)
+                names.append(nm)
+    else:
+        names = [f"sp|T{i:03d}|PROT{i}" for i in range(n_prot)]
     prots = {}
     for nm in names:
         prots[nm] = [fresh() for _ in range(int(rng.integers(2, 7)))]
